@@ -844,6 +844,285 @@ def c37(run):
         run.validate("Trace_Args.tla", ["C37"], tf, fam)
 
 
+# ---------------------------------------------------------------- hexane columns
+HEX_CFG = """SPECIFICATION Spec
+CONSTANTS
+  Depth = %d
+  MaxLen = %d
+  Vals = {"N", "0", "1", "5"}
+INVARIANTS Emit PrefixMonotone IftInverse
+CHECK_DEADLOCK FALSE
+"""
+
+
+def gen_hex(run, depth, maxlen, num, cap):
+    """spec -> impl: programs of HexColumn.tla (TLC simulation: `num` random prefixes x all last steps) replayed on
+    every column type with max_segments 2, 3, 4 and 16"""
+    from . import BIN, sh
+    behs, r = tlc_behaviours("HexColumn.tla", HEX_CFG % (depth, maxlen), os.path.join(run.work, "genhex"), {}, num, depth + 1,
+                             run.seed, workers=4)
+    run.add_states(r)
+    behs = sorted(set(behs))[:cap]
+    bp = os.path.join(run.work, "beh-hex.ndjson")
+    with open(bp, "w") as f:
+        f.write("\n".join(behs) + "\n")
+    outp = os.path.join(run.work, "rep-hex.json")
+    build_harness_once()
+    rc, out, dt = sh([os.path.join(BIN, "hexrun"), "replay", bp, outp], timeout=3000, ok_codes=None)
+    if rc != 0 or not os.path.exists(outp):
+        raise ToolError("hexrun replay failed:\n" + out[-2000:])
+    res = json.load(open(outp))
+    run.cov["traces_validated_against_impl"] += res["behaviours"]
+    run.cov["evaluations"] += res["steps"]
+    for b in behs:
+        if '"saveload"' in b or '"remove_n"' in b:
+            run.nontrivial("hex:" + digest_of(b))
+    if behs:
+        run.sample({"gen": "HexColumn.tla", "ops": [s["op"] for s in json.loads(behs[0])]})
+    for mm in res["mismatches"][:5]:
+        run.violation({"behaviour": mm["line"], "kind": mm["expected"], "got": mm["got"]},
+                      f"replay of TLC column program (HexColumn.tla) on {mm['expected']['kind']} max_segments={mm['expected']['maxseg']}: {mm['fields'][0][:200]}",
+                      {"checks": ["replay:hexcolumn"], "event": mm["expected"]})
+    run.step("gen_hex", behaviours=res["behaviours"], steps=res["steps"])
+
+
+def build_harness_once():
+    from . import build_harness
+    build_harness()
+
+
+def c34(run):
+    run.cov["rule"] = ("HexColumn.tla: a column is a sequence over {null, 0, 1, 5}; programs of insert / push / splice (runs of 3, "
+                       "replacements) / remove / remove_n / truncate / clear / save+load up to the depth bound; TLC simulation "
+                       "draws random prefixes and enumerates every last step; each program is replayed on Column<u64>, "
+                       "Column<Option<u64>>, Column<i64> (extremes), Column<bool>, Column<String>, Column<Vec<u8>>, "
+                       "PrefixColumn<u64>, DeltaColumn<i64> and RawColumn with max_segments 2, 3, 4, 16 (slab splits and merges); "
+                       "after every step: contents, len, get(i) for all i, iter_range for all ranges, flattened runs, "
+                       "check_invariants, prefix sums, sum_range, get_index_for_total for every total, find_by_value / "
+                       "find_first per value - all against the values TLC computed from the sequence; non-trivial = program "
+                       "containing a multi-element removal or a save/load")
+    if run.tier == "quick":
+        gen_hex(run, 5, 8, 12, 12000)
+    else:
+        gen_hex(run, 7, 10, 120, 150000)
+
+
+def c35(run):
+    run.cov["rule"] = ("(1) every state reached by the HexColumn.tla programs is saved and loaded back (same type) and must "
+                       "give the same values and the same bytes again; (2) bytes campaign: every load (15 column types) on "
+                       "single-byte overwrites, bit flips and truncations at every position of real encodings of 6 types, "
+                       "hand-made run headers with extreme counts/values, invalid UTF-8, and seeded random byte strings: the "
+                       "outcome must be a column or an error, and a column that loads must save to bytes that load to the "
+                       "same values (Trace_Wire HexBad); non-trivial = distinct offending-class-free load batches")
+    if run.tier == "quick":
+        gen_hex(run, 4, 7, 8, 6000)
+    else:
+        gen_hex(run, 6, 9, 60, 80000)
+    from . import BIN, sh
+    t = os.path.join(run.work, "hexbytes.ndjson")
+    rc, out, dt = sh([os.path.join(BIN, "hexrun"), "bytes", str(run.seed), str(sizes(run, 20000, 1500000)), t], timeout=3000, ok_codes=None)
+    if rc != 0:
+        # the campaign died (abort / allocation failure inside a load): that is an observation of C35
+        run.violation({"output": out[-1500:]}, "hexane bytes campaign aborted: " + out[-300:].replace("\n", " "),
+                      {"checks": ["abort"], "event": {}})
+    else:
+        run.validate("Trace_Wire.tla", ["C35"], t, "hexbytes")
+        n = sum(e.get('n', 0) for e in read_trace(t) if e.get('ev') == 'hexagg')
+        run.cov["evaluations"] += n
+        run._nontrivial.update(("hexload", k) for k in range(min(n, 100000)))
+        run.sample([e for e in read_trace(t) if e.get('ev') == 'hexagg'][:6])
+
+
+# ---------------------------------------------------------------- encodings and untrusted input
+def wirex(args, timeout=3000):
+    from . import BIN, sh, build_harness
+    build_harness()
+    rc, out, dt = sh([os.path.join(BIN, "wirex")] + [str(a) for a in args], timeout=timeout, ok_codes=None)
+    if rc != 0:
+        raise ToolError("wirex failed:\n" + out[-2000:])
+    log("[wirex]", out.strip().splitlines()[-1] if out.strip() else "")
+
+
+def wire_class(e):
+    """which property an offending vector belongs to"""
+    o = e.get('o', '')
+    cls = set()
+    if o.startswith('panic') or o in ('abort', 'timeout', 'missing'):
+        cls.add('C15')
+    if o.startswith('bad:utf8'):
+        cls.add('C39')
+    elif o.startswith('bad:'):
+        cls.add('C16')
+    if e.get('over') or o in ('abort', 'timeout'):
+        cls.add('C17')
+    return cls
+
+
+def wire_campaign(run, nbases_q, nbases_t):
+    """mutation campaign; offenders that match a listed known finding are reported as such and removed, the rest is
+    validated by Trace_Wire (an unlisted offender is rejected there and becomes a violation)"""
+    from . import match_known, write_trace
+    t = os.path.join(run.work, "mutate.ndjson")
+    wirex(["mutate", run.seed, sizes(run, nbases_q, nbases_t), t, run.tier], timeout=6000)
+    events = read_trace(t)
+    kept = []
+    nvec = 0
+    for e in events:
+        if e.get('ev') == 'wire':
+            nvec += e['n']
+            run.nontrivial((e['base'], e['target'], e['kind']))
+        if e.get('ev') == 'wirebad':
+            if run.pid not in wire_class(e):
+                continue
+            hit = None
+            for k in run.known:
+                if k.get('status') == 'known' and match_known(k, '', {"checks": [k.get('check', '')], "event": e}, e):
+                    hit = k
+                    break
+            if hit:
+                line = f"KNOWN-FINDING: property={run.pid} {hit['detail']}"
+                if line not in run.known_hits:
+                    run.known_hits.append(line)
+                    log(line)
+                continue
+        kept.append(e)
+    t2 = os.path.join(run.work, "mutate-filtered.ndjson")
+    write_trace(t2, kept)
+    run.validate("Trace_Wire.tla", [run.pid], t2, "mutate")
+    run.cov["evaluations"] += nvec
+    run.sample([e for e in events if e.get('ev') == 'wire'][:5])
+    return events
+
+
+WIRE_RULE = ("structure-aware mutation campaign on real encodings of generated histories (uncompressed and deflated "
+             "documents, incremental change chunks, single and DEFLATE-compressed changes, bundles, sync messages, sync "
+             "states, Bloom filters, cursors, object ids): at sampled and all header positions - replace the LEB128 integer "
+             "starting there by 0, 1, 127, 128, 65535, 2^32-1, 2^32, 2^63, 2^64-1; flip a bit; overwrite a byte; plant "
+             "invalid UTF-8 - each with and without recomputing the chunk length and checksum so the mutation reaches the "
+             "column decoders; truncation at every offset; duplicated / dropped chunks; random bytes; plus a pool of "
+             "malformed strings for Cursor / ObjId / ActorId / ChangeHash parsing and import; entry points load, "
+             "load (partial), load_incremental, rescue, Change::from_bytes (+apply), Message::decode (+receive and reply), "
+             "State::decode (+generate), Bundle::try_from (+load), BloomFilter / Cursor / ObjId::try_from; every vector "
+             "runs in a child process under catch_unwind, a counting allocator and a watchdog; ")
+
+
+def c15(run):
+    run.cov["rule"] = WIRE_RULE + ("C15: the outcome must be a value or an error - a panic, an abort or a hang is a violation; "
+                                   "non-trivial = (input kind, entry point, mutation kind) classes exercised")
+    gen_bloom(run)
+    wire_campaign(run, 1, 8)
+    run.cov["explanation"] = "positions are sampled (all header positions + a seeded sample); the set of histories is sampled"
+
+
+def c16(run):
+    run.cov["rule"] = WIRE_RULE + ("C16: every input that is ACCEPTED must yield a document that behaves like a valid one: all "
+                                   "reads of the projection and of recent historical heads succeed, save() loads back to an "
+                                   "equal document with equal heads, an edit commits and reloads, merging with the unmutated "
+                                   "original converges")
+    wire_campaign(run, 1, 8)
+
+
+def c17(run):
+    run.cov["rule"] = WIRE_RULE + ("C17: each vector must stay within peak heap <= 32 MiB + 64 KiB per input byte, no single "
+                                   "allocation request above 64 MiB, 5 s; Bloom filter parameter vectors enumerated from "
+                                   "Wire.tla are included")
+    gen_bloom(run)
+    wire_campaign(run, 1, 8)
+
+
+def c39(run):
+    run.cov["rule"] = WIRE_RULE + ("C39: every string handed out by an accepted document (map keys, string values, text, mark "
+                                   "names and values, spans, change messages) must be valid UTF-8 (re-validated on the raw bytes)")
+    wire_campaign(run, 1, 8)
+
+
+def gen_bloom(run):
+    """spec -> impl: Wire.tla enumerates every Bloom filter field vector over the token alphabet with the verdict the
+    parser must reach; wirex builds the bytes, decodes, queries and measures"""
+    from . import tlc
+    cfg = "SPECIFICATION Spec\nINVARIANT AcceptMonotone\nCHECK_DEADLOCK FALSE\n"
+    r = tlc("Wire.tla", cfg, os.path.join(run.work, "wire"), workers=1, timeout=600, deque=False)
+    import re
+    m = re.search(r'<<"REPLAY", "(.*)">>\s*$', r["out"], re.M)
+    if not m or "Error" in r["out"]:
+        raise ToolError("Wire.tla did not produce vectors:\n" + r["out"][-2000:])
+    vecs = json.loads(json.loads('"' + m.group(1) + '"'))
+    vp = os.path.join(run.work, "bloomvec.json")
+    json.dump(vecs, open(vp, "w"))
+    run.add_states(r)
+    t = os.path.join(run.work, "bloom.ndjson")
+    wirex(["bloom", vp, run.seed, t], timeout=3000)
+    run.validate("Trace_Wire.tla", [run.pid], t, "bloom")
+    for e in read_trace(t):
+        if e.get('ev') == 'bloomvec' and e.get('res') != 'skip':
+            run.nontrivial(("bloomvec", e.get('i')))
+    run.cov["evaluations"] += len(vecs)
+    run.sample(vecs[:3])
+    run.cov["exhaustive"] = True
+    run.cov["explanation"] = "the Bloom field-vector space of Wire.tla (10 tokens per field x 5 availability classes) is enumerated completely"
+
+
+def c23(run):
+    run.cov["rule"] = ("Wire.tla: every combination of numEntries x numBitsPerEntry x numProbes over {0,1,2,7,8,10,300,65536,"
+                       "2^32-1,2^32} x {no bits, exact, 3 extra bytes, one byte short, 40 bytes of a huge capacity}; the "
+                       "parser must accept exactly the vectors Wire!Accepts accepts, and every accepted filter must answer 26 "
+                       "queries (random, all-zero, all-ones hashes) with a boolean; hash sets of sizes 0,1,2,7,8,9,100,1000,"
+                       "5000 and adversarial sets (equal low words, x=y=z, duplicates): no member reported absent, before "
+                       "and after to_bytes/try_from; every filter carried by the messages of the sync replays (C20) is "
+                       "compared with the model's membership as part of those checks; non-trivial = vectors decided")
+    gen_bloom(run)
+
+
+def has_compressed(sc):
+    return any(e.get('ev') == 'chgrt' and e.get('compressed') for e in sc)
+
+
+def c18(run):
+    run.cov["rule"] = ("(1) every change of generated histories (maps, lists, text with marks, multi-unit text, a 400-character "
+                       "change with a message that is DEFLATE-compressed): Change::from_bytes of the raw and of the compressed "
+                       "bytes gives the same hash and raw bytes, decode() -> Change::from gives the same hash and bytes, hash = "
+                       "SHA-256 of the chunk (Trace_Wire ChgRT); (2) bundles: TLC (Gen_Delivery over the real DAG) enumerates "
+                       "delivery schedules whose batches are also delivered as one bundle chunk built by Automerge::bundle "
+                       "(any subset, duplicates, causally open sets): to_changes() must return byte-identical changes and "
+                       "load_incremental of the bundle must leave applied/queue/heads/missing exactly as Graph!DeliverResult "
+                       "of the same set; non-trivial = scenario with a compressed change / schedule with a queued change")
+    t = os.path.join(run.work, "roundtrip.ndjson")
+    wirex(["roundtrip", run.seed, sizes(run, 16, 300), t])
+    run.validate("Trace_Wire.tla", ["C18"], t, "roundtrip")
+    count_nontrivial(run, t, has_compressed)
+    sample_scenario(run, t, has_compressed, maxlen=5)
+    if run.tier == "quick":
+        gen_delivery(run, "dag", 2, 6, 4, bundles=True)
+    else:
+        gen_delivery(run, "dag", 12, 40, 5, maxchanges=6, bundles=True)
+
+
+def has_sync(sc):
+    return any(e.get('ev') == 'syncrt' and e.get('nmsgs', 0) >= 2 for e in sc)
+
+
+def c19(run):
+    run.cov["rule"] = ("(1) round trips on generated histories: every object id (bytes, string + import), every cursor of every "
+                       "sequence position in both move modes (bytes, string), actor ids and change hashes (strings, bytes), "
+                       "every message of a two-replica sync session (decode(encode(m)) = m and re-encodes to the same bytes) "
+                       "and both sync states after every message (shared heads survive, session fields do not) - Trace_Wire; "
+                       "(2) resolution: ids captured on one replica and decoded from bytes/strings are used on replicas whose "
+                       "actor tables differ (new actors sort first; ids family) and must read the object OpSet!ObjView names; "
+                       "cursors taken on one replica are resolved on the others (C26 families); non-trivial = scenario with a "
+                       "sync session of >= 2 messages")
+    t = os.path.join(run.work, "roundtrip.ndjson")
+    wirex(["roundtrip", run.seed, sizes(run, 24, 400), t])
+    run.validate("Trace_Wire.tla", ["C19"], t, "roundtrip")
+    count_nontrivial(run, t, has_sync)
+    sample_scenario(run, t, has_sync, maxlen=5)
+    t2 = os.path.join(run.work, "ids.ndjson")
+    drive(["ids", run.seed, sizes(run, 100, 2500), t2])
+    run.validate("Trace_Interp.tla", ["C30"], t2, "ids")
+    t3 = os.path.join(run.work, "cursor.ndjson")
+    drive(["cursor", run.seed, sizes(run, 60, 1500), t3])
+    run.validate("Trace_Interp.tla", ["C26"], t3, "cursor")
+
+
 def replay(run, path):
     """re-validate a recorded violating scenario"""
     from . import tlc_trace
@@ -869,6 +1148,15 @@ REG = {
     "C08": ("model_checking", c08),
     "C24": ("model_checking", c24),
     "C30": ("model_checking", c30),
+    "C34": ("model_checking", c34),
+    "C15": ("fault_enumeration", c15),
+    "C16": ("fault_enumeration", c16),
+    "C17": ("fault_enumeration", c17),
+    "C39": ("fault_enumeration", c39),
+    "C23": ("fault_enumeration", c23),
+    "C18": ("model_checking", c18),
+    "C19": ("model_checking", c19),
+    "C35": ("fault_enumeration", c35),
     "C37": ("exploration", c37),
     "C40": ("model_checking", c40),
     "C25": ("model_checking", c25),
